@@ -65,9 +65,48 @@ func (b *synB) family(depth int) gr.Sym {
 	fam := b.force
 	b.force = 0
 	if fam == 0 {
-		fam = rapid.IntRange(0, 15).Draw(b.t, "family")
+		fam = rapid.IntRange(0, 16).Draw(b.t, "family")
 	}
 	switch fam {
+	case 16: // several nonterminals with the same body in two contexts, the followers
+		// of the second context being those of the first in another order: states
+		// with equal cores and equal look-aheads that are distributed differently
+		// (the grammars that are LR(1) but not LALR(1) are of this kind)
+		m := rapid.IntRange(2, 3).Draw(b.t, "sameBodyNTs")
+		if b.maxNT-b.nNT < m {
+			alts = []gr.Alt_{body(b.term(), elem(), b.term())}
+			break
+		}
+		c, k1, k2 := b.term(), b.term(), b.term()
+		var nts []gr.Sym
+		for i := 0; i < m; i++ {
+			n, npi := b.newNT()
+			if i == 2 && rapid.Bool().Draw(b.t, "thirdLonger") {
+				b.prods[npi].Alts = []gr.Alt_{body(c, b.term())}
+			} else {
+				b.prods[npi].Alts = []gr.Alt_{body(c)}
+			}
+			nts = append(nts, nt(n))
+		}
+		var f1 []gr.Sym
+		for i := 0; i < m; i++ {
+			f1 = append(f1, b.term())
+		}
+		f2 := f1
+		if rapid.Bool().Draw(b.t, "followersPermuted") {
+			f2 = rapid.Permutation(f1).Draw(b.t, "followerOrder")
+		} else {
+			f2 = nil
+			for i := 0; i < m; i++ {
+				f2 = append(f2, b.term())
+			}
+		}
+		for i := 0; i < m; i++ {
+			alts = append(alts, body(k1, nts[i], f1[i]))
+		}
+		for i := 0; i < m; i++ {
+			alts = append(alts, body(k2, nts[i], f2[i]))
+		}
 	case 15: // a nonterminal that is nullable only indirectly (no empty alternative of
 		// its own: every symbol of one of its bodies is nullable), used behind a
 		// nonterminal and in front of a terminal
